@@ -233,3 +233,63 @@ func VH_c12_llgr() {
 	vAssert(!p.fsm.pConf.ReadOnly().GracefulRestart.State.PeerRestarting, "the peer is still reported as restarting after every long-lived timer expired")
 	vReach("end")
 }
+
+// C12 (restarting speaker): while the speaker itself is restarting it withholds its advertisements
+// until every graceful-restart peer has sent End-of-RIB, or until the deferral timer fires.
+func VH_c12_deferral() {
+	fams := []bgp.Family{bgp.RF_IPv4_UC}
+	s := vServer(65000, fams)
+	go s.Serve()
+	deferral := vInt("deferral_time", 1, 2)
+	mk := func(n byte, as uint32) *peer {
+		c := vNeighbor(n, as, 65000, fams)
+		c.GracefulRestart.Config.Enabled, c.GracefulRestart.Config.RestartTime = true, 120
+		c.GracefulRestart.Config.DeferralTime = uint16(deferral)
+		c.GracefulRestart.State.LocalRestarting = true
+		c.AfiSafis[0].MpGracefulRestart.Config.Enabled = true
+		c.Timers.Config.HoldTime, c.Timers.Config.KeepaliveInterval = 90, 30
+		p := newPeer(&s.bgpConfig.Global, c, bgp.BGP_FSM_OPENCONFIRM, s.globalRib, s.policy, s.logger)
+		s.neighborMap[c.State.NeighborAddress] = p
+		caps := []bgp.ParameterCapabilityInterface{bgp.NewCapMultiProtocol(bgp.RF_IPv4_UC), bgp.NewCapFourOctetASNumber(as),
+			bgp.NewCapGracefulRestart(false, true, 120, []*bgp.CapGracefulRestartTuple{bgp.NewCapGracefulRestartTuple(bgp.RF_IPv4_UC, true)})}
+		my := uint16(as)
+		open, _ := bgp.NewBGPOpenMessage(my, 90, vAddr4(2, 2, 2, n), []bgp.OptionParameterInterface{bgp.NewOptionParameterCapability(caps)})
+		p.fsm.conn, p.fsm.recvOpen = newVConn(nil, true), open
+		p.fsm.h = &fsmHandler{fsm: p.fsm, ctxCancel: func() {}}
+		return p
+	}
+	p1, p2 := mk(2, 65001), mk(3, 65002)
+	told := map[*peer]int{}
+	drain := func() {
+		vSettle()
+		for _, p := range []*peer{p1, p2} {
+			for p.fsm.outgoingCh.Len() > 0 {
+				m := (<-p.fsm.outgoingCh.Out()).(*fsmOutgoingMsg)
+				for _, q := range m.Paths {
+					if !q.IsEOR() && !q.IsWithdraw {
+						told[p]++
+					}
+				}
+			}
+		}
+	}
+	vTransition(s, p1, bgp.BGP_FSM_ESTABLISHED, fsmOpenMsgNegotiated)
+	vTransition(s, p2, bgp.BGP_FSM_ESTABLISHED, fsmOpenMsgNegotiated)
+	vRecv(s, p1, vUpdate4(vPrefix4(10, 1, 0, 0, 16), false, []uint32{65001}, vAddr4(10, 0, 0, 2)), 10)
+	vRecv(s, p1, bgp.NewEndOfRib(bgp.RF_IPv4_UC), 11)
+	drain()
+	vAssert(told[p2] == 0 && told[p1] == 0, "a restarting speaker advertised routes before every graceful-restart peer had sent End-of-RIB")
+	if vBool("second_peer_sends_end_of_rib") {
+		vRecv(s, p2, bgp.NewEndOfRib(bgp.RF_IPv4_UC), 12)
+		drain()
+		vAssert(told[p2] == 1, "the route learned during the restart is not advertised once every peer has sent End-of-RIB")
+		vAssert(vElapsedSec() == 0, "advertisement after the last End-of-RIB waited for the deferral timer")
+		vReach("all_eor")
+	} else {
+		<-time.After(time.Duration(deferral)*time.Second + 500*time.Millisecond)
+		drain()
+		vAssert(told[p2] == 1, "the route learned during the restart is not advertised when the deferral timer fires")
+		vReach("deferral_expired")
+	}
+	vAssert(!p2.fsm.pConf.ReadOnly().GracefulRestart.State.LocalRestarting, "the speaker is still marked as restarting towards a peer after the restart phase ended")
+}
